@@ -221,13 +221,12 @@ func setTierB(th bool) {
 			8: {"-", "vVc2", "xC1", "uC2+3", "rC3+5"}, 9: {"-"}, 10: {"-"}}}
 	} else {
 		scenariosB["B:term"] = &scenB{Name: "B:term", MaxHeight: 6, MaxRestarts: 1, Menu: map[int][]string{
-			2: {"-", "rC3+3", "xC1"}, 3: {"-", "rC3+5", "uC2+3", "xC1", "xD0", "vWc2"}, 4: {"-", "uC2+3", "uC2+5", "xC1", "vVc2"}, 5: {"-"}, 6: {"-"}}}
+			2: {"-", "rC3+3", "xC1"}, 3: {"-", "rC3+5", "uC2+3", "xC1", "xD0", "vWc2"}, 4: {"-", "uC2+3", "xC1", "vVc2", "uC2+5"}, 5: {"-"}, 6: {"-"}}}
 	}
 	scenariosB["B:free"] = &scenB{Name: "B:free", MaxHeight: 14, MaxRestarts: 9}
 	sampleB = []string{"B:term", "b rC3+3", "rs", "b vWc2", "b -", "b -", "b -"}
 }
 
-func toFreeB(hist []string) []string { return append([]string{"B:free"}, hist[1:]...) }
 
 // ---------------------------------------------------------------------------------------------
 // nodes
@@ -933,7 +932,8 @@ func (w *worldB) enabled() []string {
 }
 
 func runLayerB(full []string) (o core.Outcome) {
-	sc := scenariosB[full[0]]
+	base, _ := splitScenario(full[0])
+	sc := scenariosB[base]
 	if sc == nil {
 		panic(errInvalidHistory)
 	}
@@ -1009,7 +1009,7 @@ func runLayerB(full []string) (o core.Outcome) {
 		return fmtList(e)
 	}
 	o.Key = fmt.Sprintf("%s|h=%d|rs=%d|last=%v|%s|%s|F:top%s idx%s pers%s|O:top%s idx%s pers%s|terms %s",
-		sc.Name, w.head.Height(), w.restarts, w.lastKind == "restart", of.stateStr(), of.extra, fmtList(of.got), fmtList(of.index), pl(pf),
+		full[0], w.head.Height(), w.restarts, w.lastKind == "restart", of.stateStr(), of.extra, fmtList(of.got), fmtList(of.index), pl(pf),
 		fmtList(oo.got), fmtList(oo.index), pl(po), termsOf(w.o.DM))
 	if len(evs) < sc.depth() {
 		o.Enabled = w.enabled()
